@@ -262,9 +262,83 @@ def reachable_via(other, sym):
     return sorted(ways)
 
 
+API_NAMES = ["zTmp", "Ji", "ZW", "tmp_A", "jK", "Work1"]
+
+
+def apply_pre_history(root, pre, counters=None):
+    """The tree that gets copied is itself the product of a history: symbols
+    and statements created through the PSyIR API (names keep the case the
+    caller gave them, unlike names read from source) and symbols created by
+    a real transformation.  Never raises."""
+    from psyclone.psyir import nodes as N
+    from psyclone.psyir.symbols import (DataSymbol, INTEGER_TYPE, REAL_TYPE,
+                                        RoutineSymbol)
+    for op in pre:
+        try:
+            routines = root.walk(N.Routine)
+            if not routines:
+                return
+            rt = routines[op["k"] % len(routines)]
+            tab = rt.symbol_table
+            name = API_NAMES[op["k2"] % len(API_NAMES)]
+            if op["p"] == "api-scalar":
+                sym = tab.new_symbol(name, symbol_type=DataSymbol,
+                                     datatype=REAL_TYPE)
+                rt.addchild(N.Assignment.create(
+                    N.Reference(sym), N.Literal("1.0", REAL_TYPE)), 0)
+                rt.addchild(N.Assignment.create(
+                    N.Reference(sym), N.BinaryOperation.create(
+                        N.BinaryOperation.Operator.ADD, N.Reference(sym),
+                        N.Literal("2.0", REAL_TYPE))))
+            elif op["p"] == "api-loop":
+                var = tab.new_symbol(name, symbol_type=DataSymbol,
+                                     datatype=INTEGER_TYPE)
+                acc = tab.new_symbol(API_NAMES[(op["k2"] + 1) %
+                                               len(API_NAMES)],
+                                     symbol_type=DataSymbol,
+                                     datatype=INTEGER_TYPE)
+                body = N.Assignment.create(
+                    N.Reference(acc), N.BinaryOperation.create(
+                        N.BinaryOperation.Operator.ADD, N.Reference(acc),
+                        N.Reference(var)))
+                rt.addchild(N.Loop.create(
+                    var, N.Literal("1", INTEGER_TYPE),
+                    N.Literal("3", INTEGER_TYPE),
+                    N.Literal("1", INTEGER_TYPE), [body]))
+            elif op["p"] == "api-call":
+                rsym = tab.new_symbol(name, symbol_type=RoutineSymbol)
+                rt.addchild(N.Call.create(rsym, []))
+            elif op["p"] == "chunk":
+                from psyclone.psyir.transformations import (
+                    ChunkLoopTrans, TransformationError)
+                loops = rt.walk(N.Loop)
+                if loops:
+                    try:
+                        ChunkLoopTrans().apply(loops[op["k2"] % len(loops)],
+                                               {"chunksize": 4})
+                    except TransformationError:
+                        continue
+            if counters is not None:
+                counters.inc2("pre_copy_history", op["p"])
+        except Exception as err:
+            if counters is not None:
+                counters.inc2("pre_copy_history_skipped",
+                              op["p"] + ":" + type(err).__name__)
+
+
+def gen_pre(rng):
+    if rng.random() < 0.55:
+        return []
+    return [{"p": pick(rng, ["api-scalar", "api-loop", "api-loop",
+                             "api-call", "chunk"]),
+             "k": rng.randrange(1 << 16), "k2": rng.randrange(1 << 16)}
+            for _ in range(rng.randint(1, 3))]
+
+
 def run_history(prog, sub_kind, sub_key, ops, counters=None, log=None):
     from psyclone.psyir.frontend.fortran import FortranReader
     root = FortranReader().psyir_from_source(program_text(prog))
+    apply_pre_history(root, prog.get("pre", []), counters)
     orig = pick_subtree(root, sub_kind, sub_key)
     cp = orig.copy()
     bad = check_copy(orig, cp)
@@ -345,12 +419,17 @@ def shrink(prog, sub_kind, sub_key, ops, cls):
         if fails(prog, cand):
             ops = cand
         i -= 1
+    for k in range(len(prog.get("pre", [])) - 1, -1, -1):
+        cand = dict(prog, pre=prog["pre"][:k] + prog["pre"][k + 1:])
+        if fails(cand, ops):
+            prog = cand
     progress = True
     rounds = 0
     while progress and rounds < 40:
         progress = False
         rounds += 1
         for cand in richgen.shrink_candidates(prog):
+            cand["pre"] = prog.get("pre", [])
             if fails(cand, ops):
                 prog = cand
                 progress = True
@@ -364,6 +443,7 @@ def run_one(seed, index, tier):
     rng_h = stream(seed, "history")
     prog = richgen.gen_program(rng_p)
     prog["module_decls"] = rng_p.random() < 0.6
+    prog["pre"] = gen_pre(stream(seed, "pre-history"))
     sub_kind = pick(rng_h, SUBTREES)
     sub_key = rng_h.randrange(1 << 16)
     ops = gen_ops(rng_h)
@@ -390,6 +470,7 @@ def run_one(seed, index, tier):
         rep = {"property": PROPERTY, "engine": ENGINE, "engine_version": 1,
                "seed": seed, "run_index": index, "violation_class": cls,
                "scenario": {"program": mprog, "subtree": sub_kind,
+                            "pre_copy_history": mprog.get("pre", []),
                             "subtree_key": sub_key,
                             "fortran": program_text(mprog)},
                "schedule": mops, "faults": "none",
